@@ -46,12 +46,15 @@ construct both, configure in reverse order} x run order {A,B,A | B,A,B}; ordered
 triples with runs A,B,C,A.  Every run must be bit-identical to ONE fresh object of
 that configuration (whose relations are checked); on a difference the B-/A-relations
 are evaluated on the deviating result.
-Part E (error paths): unknown metric name, naive / fixed / effective_throughput
-without their arguments, a channel whose row count is not a multiple of the users,
-a 1-D channel: the call must raise, the object's attribute digest must be unchanged
-and a later run must give the same result as before.  num_streams outside 1..n is
-outside the property's domain (the library accepts it silently): only "a later valid
-re-configuration behaves like a fresh object" is required.
+Part E (invalid calls, tools/INVALID_CALL_POLICY.md): unknown metric name, naive /
+fixed / effective_throughput without their arguments, num_streams 0 / 4, a channel
+whose row count is not a multiple of the users, a 1-D channel.  What the call itself
+does (raise / accept, attributes changed or not) is recorded as an OUTCOME only.
+Required afterwards: a run with the configuration the object REPORTS (iPu, noise_var,
+pe, metric_name and its stored arguments) works, is bit-identical to a fresh object
+put into that configuration through valid calls (B-relations evaluated on a
+difference); an object that reports a metric must not make a run raise; the next
+VALID configuration restores exactly the behaviour of a fresh object.
 Scale families (A and B): every coefficient x c, c in {1e-12,1e-9,1e-6,1e6}, with
 noise x c^2 (and pe x c^2 where only the users' channel is scaled) and one
 independently scaled noise; every tolerance is relative to the scale of the case.
@@ -86,7 +89,8 @@ RULE = ("A: (K,n) in {2,3}x{1,2,3} x {generic G_s, weak user, weak antenna, kapp
         "coefficients x{1e-12,1e-9,1e-6,1e6}, noise (pe) x c^2 and one independent noise. L: every ordered "
         "pair (and triple) of differently configured LIVE objects of one class x 3 construction/configuration "
         "orders x 2 run orders, every run bit-identical to one fresh object. E: every invalid call x every "
-        "configuration: raises, object digest unchanged, later result unchanged")
+        "configuration: outcome recorded; afterwards the object is coherent with the configuration it reports "
+        "and a valid re-configuration restores fresh behaviour")
 
 LAYOUTS = ((2, 1), (2, 2), (3, 1), (2, 3), (3, 2), (3, 3))
 IPUS = (1.0, 0.5, 2.5)
@@ -920,7 +924,60 @@ def error_cases():
                 yield cls, ci, k
 
 
+def reported_config(cls, obj, cfg):
+    """the configuration the object REPORTS through its public attributes (iPu, noise_var,
+    pe, metric_name) and the arguments stored for that metric.  Returns (cfg, usable, why):
+    usable = a configuration of the property's domain (valid metric, num_streams in 1..n)."""
+    rep = {a: getattr(obj, a) for a in ("iPu", "noise_var", "pe") if hasattr(obj, a)}
+    if cls != "EnhancedBD":
+        if "method" in cfg:
+            rep["method"] = cfg["method"]
+        return rep, True, ""
+    name = obj.metric_name
+    args = dict(getattr(obj, "_metric_func_extra_args", {}) or {})
+    if name in ("None", None):
+        rep["metric"] = None
+        return rep, True, ""
+    rep["metric"] = name
+    if name in ("naive", "fixed"):
+        if "num_streams" not in args:
+            return rep, False, "metric_without_arguments"
+        rep["ns"] = args["num_streams"]
+        ok = isinstance(rep["ns"], (int, np.integer)) and 1 <= rep["ns"] <= 3
+        return rep, bool(ok), "" if ok else "num_streams_outside_1..n"
+    if name == "effective_throughput":
+        if "modulator" not in args or "packet_length" not in args:
+            return rep, False, "metric_without_arguments"
+        rep["et_args"] = {"modulator": args["modulator"], "packet_length": args["packet_length"]}
+        return rep, True, ""
+    if name == "capacity":
+        return rep, True, ""
+    return rep, False, "unknown_metric_name"
+
+
+def fresh_for_reported(cls, rep, chan):
+    """a fresh object put into the reported configuration through VALID calls only"""
+    from pyphysim.comm import blockdiagonalization as bdm
+    if cls == "EnhancedBD":
+        fo = bdm.EnhancedBD(2, rep["iPu"], rep["noise_var"], rep["pe"])
+        if rep.get("metric") == "effective_throughput":
+            fo.set_ext_int_handling_metric("effective_throughput", dict(rep["et_args"]))
+        else:
+            apply_metric(fo, rep.get("metric"), rep.get("ns"))
+    elif cls == "WhiteningBD":
+        fo = bdm.WhiteningBD(2, rep["iPu"], rep["noise_var"], rep["pe"])
+    else:
+        fo = bdm.BlockDiagonalizer(2, rep["iPu"], rep["noise_var"])
+    return l_run(cls, fo, rep, chan, "B")
+
+
 def run_error_case(chk, cls, ci, k, chans, case):
+    """INVALID_CALL_POLICY: the invalid call itself is free (raise / accept / change
+    attributes are OUTCOMES).  Required afterwards: coherence with what the object
+    REPORTS -- a run with the reported configuration works, equals a fresh object
+    configured that way through valid calls and satisfies the B-relations; an object
+    that reports a metric must not make a run raise; and the next VALID configuration
+    restores exactly the behaviour of a fresh object."""
     from vmc import bfs
     cfg = L_CONFIGS[cls][ci]
     base = l_fresh(chk, cls, ci, chans, "B")
@@ -928,58 +985,65 @@ def run_error_case(chk, cls, ci, k, chans, case):
     obj = l_create(cls)
     l_configure(cls, obj, cfg)
     calls = bad_calls(cls)
-    chk.count("eval_error_paths")
+    chk.count("eval_invalid_calls")
+    d0 = bfs.digest(vars(obj))
     if k < len(calls):
         label, fn = calls[k]
-        group = ("set_metric_unknown_name" if label == "set_metric_unknown_name" else
-                 "set_metric_missing_args" if label.startswith("set_metric") else "run_bad_channel")
-        d0 = bfs.digest(vars(obj))
-        raised = None
-        try:
-            fn(obj)
-        except Exception as e:  # noqa
-            raised = e
-        chk.outcome("error_paths", (cls, label, type(raised).__name__))
-        if raised is None:
-            chk.fail((cls, "error_path", group, "no_exception"), dict(case, label=label),
-                     observed="call returned", expected="an exception")
-        changed = bfs.digest(vars(obj)) != d0
-        again, later = None, "later run gives the same result"
-        try:
-            again = l_run(cls, obj, cfg, chan, "B")
-            if not _same_result(again, base):
-                later = "later run gives a DIFFERENT result"
-        except Exception as e:  # noqa
-            later = "later run raises %s: %s" % (type(e).__name__, e)
-        if changed:
-            # one signature per cause; the consequence for later runs goes into the message
-            chk.fail((cls, "error_path", group, "object_changed_by_rejected_call"), dict(case, label=label),
-                     observed={a: repr(v)[:60] for a, v in vars(obj).items()},
-                     expected="attributes as before the rejected call", msg="%s; %s" % (label, later))
-        elif later != "later run gives the same result":
-            chk.fail((cls, "error_path", group, "later_result_changed"), dict(case, label=label),
-                     observed=later, expected="bit-identical to the object's result before")
+        what = ("set_metric_unknown_name" if label == "set_metric_unknown_name" else
+                "set_metric_missing_args" if label.startswith("set_metric") else "run_bad_channel")
     else:
-        # num_streams outside 1..n is outside the property's domain (the library accepts it
-        # silently); whatever it does, a later valid configuration must behave like a fresh object
         ns = 0 if k == len(calls) else 4
-        for metric in ("naive", "fixed"):
-            try:
-                obj.set_ext_int_handling_metric(metric, {"num_streams": ns})
-                l_run(cls, obj, dict(cfg, metric=metric, ns=ns), chan, "B")
-            except Exception:  # noqa
-                pass
-        chk.count("eval_out_of_range_num_streams_recovery")
-        l_configure(cls, obj, cfg)
-        again = l_run(cls, obj, cfg, chan, "B")
-        if not _same_result(again, base):
-            chk.fail((cls, "error_path", "after_out_of_range_num_streams", "valid_reconfiguration_differs"),
-                     case, observed="result differs", expected="bit-identical to a fresh object")
+        label = what = "set_metric_num_streams_%d" % ns
+
+        def fn(o, ns=ns, m=("naive" if ci % 2 else "fixed")):
+            o.set_ext_int_handling_metric(m, {"num_streams": ns})
+    raised = None
+    try:
+        fn(obj)
+    except Exception as e:  # noqa
+        raised = e
+    chk.outcome("invalid_call", (cls, label, "accepted" if raised is None else "raised:" + type(raised).__name__,
+                                 "object_changed" if bfs.digest(vars(obj)) != d0 else "object_unchanged"))
+    case = dict(case, label=label)
+    rep, usable, why = reported_config(cls, obj, cfg)
+    sig = (cls, "after_invalid_call", what)
+    res, err = None, None
+    try:
+        res = l_run(cls, obj, rep if cls != "BlockDiagonalizer" else dict(rep), chan, "B")
+    except Exception as e:  # noqa
+        err = e
+    if usable:
+        chk.count("eval_after_invalid_call_reported_config_runs")
+        if err is not None:
+            chk.fail(sig + ("run_raises",), case, observed="%s: %s" % (type(err).__name__, err),
+                     expected="a run with the reported configuration %r" % ({k2: v for k2, v in rep.items()
+                                                                             if k2 != "et_args"},))
+        else:
+            fresh = fresh_for_reported(cls, rep, chan)
+            if not _same_result(res, fresh):
+                chk.fail(sig + ("differs_from_fresh_object_in_reported_configuration",), case,
+                         observed="result differs", expected="bit-identical to a fresh object configured %r"
+                         % ({k2: v for k2, v in rep.items() if k2 != "et_args"},))
+                l_relations(chk, cls, rep, chan, "B", res, case, "after_invalid_call")
+    elif why == "metric_without_arguments" and err is not None:
+        # reached by public calls only: the object REPORTS a metric, yet a run raises
+        chk.fail(sig + ("run_raises",), case, observed="%s: %s" % (type(err).__name__, err),
+                 expected="an object reporting metric %r can run (or the call that was rejected "
+                          "did not switch the reported metric)" % (rep.get("metric"),))
+    else:
+        chk.count("reported_config_outside_domain_after_invalid_call")
+    # the next VALID configuration fully restores the behaviour of a fresh object
+    l_configure(cls, obj, cfg)
+    again = l_run(cls, obj, cfg, chan, "B")
+    if not _same_result(again, base):
+        chk.fail(sig + ("valid_reconfiguration_differs_from_fresh_object",), case, observed="result differs",
+                 expected="bit-identical to a fresh object configured %r" % (cfg,))
+        l_relations(chk, cls, cfg, chan, "B", again, case, "after_invalid_call")
 
 
 def eval_error_case(chk, cls, ci, k, chans):
     case = {"part": "E", "cls": cls, "config": ci, "call": k, "HA": chans["A"], "HB": chans["B"]}
-    with chk.guard((cls, "error_path"), case):
+    with chk.guard((cls, "after_invalid_call"), case):
         run_error_case(chk, cls, ci, k, chans, case)
 
 
@@ -1102,7 +1166,7 @@ def main(chk):
     chk.require_outcomes("metric_x_rank", 12)
     chk.require_outcomes("removal_required", 3)
     chk.require_outcomes("history_states", 20)
-    chk.require_outcomes("error_paths", 8)
+    chk.require_outcomes("invalid_call", 8)
 
 
 def replay(case, chk):
